@@ -220,6 +220,8 @@ const (
 )
 
 type parsed struct {
+	upsert bool     // insert ... on duplicate key update
+	ondup  []string // columns the upsert clause copies from the new values
 	kind   stmtKind
 	nolock bool     // select without FOR UPDATE: plain read, takes and waits for no lock
 	cols   []string // insert: column list; update: set columns then where columns; others: where columns
@@ -229,7 +231,8 @@ type parsed struct {
 var (
 	reSpace = regexp.MustCompile(`\s+`)
 	reEqQ   = regexp.MustCompile(`(\w+)\s*=\s*\?`)
-	reIns   = regexp.MustCompile(`^insert into (\S+) \(([^)]*)\) values \(([^)]*)\)$`)
+	reIns   = regexp.MustCompile(`^insert into (\S+) \(([^)]*)\) values \(([^)]*)\)( on duplicate key update (.*))?$`)
+	reOnDup = regexp.MustCompile(`^(\w+) = values\((\w+)\)$`)
 	reSel   = regexp.MustCompile(`^select (.*) from (\S+) where (.*?)( for update)?$`)
 	reUpd   = regexp.MustCompile(`^update (\S+) set (.*) where (.*)$`)
 	reDel   = regexp.MustCompile(`^delete from (\S+) where (.*)$`)
@@ -256,7 +259,22 @@ func (c *conn) parse(q string) parsed {
 			cols = append(cols, strings.TrimSpace(x))
 		}
 		if strings.Count(m[3], "?") == len(cols) {
-			return parsed{kind: sIns, cols: cols}
+			// optional MySQL upsert clause: `on duplicate key update c = values(c), ...`
+			var ondup []string
+			okClause := true
+			if m[4] != "" {
+				for _, a := range strings.Split(m[5], ",") {
+					mm := reOnDup.FindStringSubmatch(strings.TrimSpace(a))
+					if mm == nil || mm[1] != mm[2] {
+						okClause = false
+						break
+					}
+					ondup = append(ondup, mm[1])
+				}
+			}
+			if okClause {
+				return parsed{kind: sIns, cols: cols, ondup: ondup, upsert: m[4] != ""}
+			}
 		}
 	}
 	if m := reSel.FindStringSubmatch(n); m != nil && m[2] == tbl {
@@ -487,7 +505,24 @@ func (s *stmt) Exec(args []driver.Value) (driver.Result, error) {
 		if err := c.lock(k); err != nil {
 			return nil, err
 		}
-		if _, ok := c.view(k); ok {
+		if cur, ok := c.view(k); ok {
+			if s.p.upsert {
+				// MySQL: the existing row is updated with the listed columns, 2 rows affected (0 if nothing changes), no error
+				for _, col := range s.p.ondup {
+					switch col {
+					case "status":
+						cur.status, _ = asInt(m["status"])
+					case "action_name":
+						cur.action = asStr(m["action_name"])
+					case "gmt_modified":
+						cur.modify = asTime(m["gmt_modified"])
+					case "gmt_create":
+						cur.create = asTime(m["gmt_create"])
+					}
+				}
+				c.write(k, &cur)
+				return result{2}, nil
+			}
 			return nil, &mysql.MySQLError{Number: 1062, Message: fmt.Sprintf("Duplicate entry '%s-%d' for key 'PRIMARY'", k.xid, k.branch)}
 		}
 		stv, _ := asInt(m["status"])
